@@ -11,6 +11,9 @@ package bufiox
 //   $readlen  bytes consumed since the last Release
 //   $lasterr  the error most recently returned by a method of the handle
 
+// maxSizeStats: a ring of the last ten buffer capacities (all between 0 and 2^47).
+//@ pred statsOK(s) = 0 <= s.bucketIdx && s.bucketIdx < 10 && (forall k int :: 0 <= k && k < 10 ==> 0 <= s.buckets[k] && s.buckets[k] <= 0x800000000000)
+
 //@ ghost $u string
 //@ ghost $readlen int
 //@ ghost $lasterr error
@@ -153,7 +156,7 @@ package bufiox
 // exactly the stream bytes that precede the source's future $f (representation invariant drInv).
 
 //@ pred drU(r) = strwin(r.rd.$f, r.ri - len(r.buf), len(r.rd.$f) + len(r.buf) - r.ri)
-//@ pred drInv(r) = !isnil(r.rd) && 0 <= r.ri && r.ri <= len(r.buf) && eqbytes(r.buf, r.ri, drU(r), 0, len(r.buf) - r.ri) && (!isnil(r.err) ==> len(r.rd.$f) == 0 && same(r.err, r.rd.$ferr)) && (isnil(r.buf) ==> r.ri == 0)
+//@ pred drInv(r) = statsOK(r.maxSizeStats) && !isnil(r.rd) && 0 <= r.ri && r.ri <= len(r.buf) && eqbytes(r.buf, r.ri, drU(r), 0, len(r.buf) - r.ri) && (!isnil(r.err) ==> len(r.rd.$f) == 0 && same(r.err, r.rd.$ferr)) && (isnil(r.buf) ==> r.ri == 0)
 
 // Ownership: the reader may recycle exactly its own pool buffers: buf unless it is the caller's
 // (bufReadOnly), and the parked buffers, which are distinct live pool regions.
@@ -171,14 +174,17 @@ package bufiox
 
 //@ func maxSizeStats.maxSize
 //@   arith int
-//@   props C01, C02, C04, C05, C08, C12, C17
-//@   trusted
+//@   props C04, C05
+//@   requires !isnil(s) && statsOK(s)
 //@   ensures 0 <= ret && ret <= 0x800000000000
+//@   assigns \nothing
+//@   loop 1 invariant 0 <= maxSize && maxSize <= 0x800000000000
 
 //@ func maxSizeStats.update
 //@   arith int
-//@   props C01, C02, C04, C05, C08, C12, C17
-//@   trusted
+//@   props C04, C05
+//@   requires !isnil(s) && statsOK(s) && 0 <= size && size <= 0x800000000000
+//@   ensures statsOK(s)
 //@   assigns *s
 
 //@ func DefaultReader.acquireSlow
@@ -315,7 +321,7 @@ package bufiox
 // and Flush stitches. The lengths of the pending buffers are non-decreasing and bounded by
 // len(buf); pending buffers and buf are different allocations.
 
-//@ pred wrInv(w) = !isnil(w.wd) && offset(w.pendingBuf) == 0 && (isnil(w.buf) || writable(w.buf)) && (isnil(w.buf) ==> len(w.pendingBuf) == 0) && (forall j int :: 0 <= j && j < len(w.pendingBuf) ==> allocated(w.pendingBuf[j]) && 0 <= len(w.pendingBuf[j]) && len(w.pendingBuf[j]) <= len(w.buf) && region(w.pendingBuf[j]) != region(w.buf)) && (forall i int :: forall j int :: 0 <= i && i <= j && j < len(w.pendingBuf) ==> len(w.pendingBuf[i]) <= len(w.pendingBuf[j]))
+//@ pred wrInv(w) = statsOK(w.maxSizeStats) && !isnil(w.wd) && offset(w.pendingBuf) == 0 && (isnil(w.buf) || writable(w.buf)) && (isnil(w.buf) ==> len(w.pendingBuf) == 0) && (forall j int :: 0 <= j && j < len(w.pendingBuf) ==> allocated(w.pendingBuf[j]) && 0 <= len(w.pendingBuf[j]) && len(w.pendingBuf[j]) <= len(w.buf) && region(w.pendingBuf[j]) != region(w.buf)) && (forall i int :: forall j int :: 0 <= i && i <= j && j < len(w.pendingBuf) ==> len(w.pendingBuf[i]) <= len(w.pendingBuf[j]))
 //@ pred wrFake(w) = istype(w.wd, *fakeIOWriter) ==> w.disableCache && !isnil(astype(w.wd, *fakeIOWriter)) && !isnil(astype(w.wd, *fakeIOWriter).bw) && !isnil(astype(w.wd, *fakeIOWriter).bw.flushBytes)
 // Ownership: unless the cache is disabled (bytes writer: the buffers are the caller's or the
 // garbage collector's) buf and the parked buffers are distinct live pool regions.
